@@ -128,6 +128,7 @@ func (ra *RestAgent) receiveBundleMessage(msg BundleMessage) {
 		}
 		return true // multiple clients might be registered for some endpoint
 	})
+	uuids = simOrderClients(uuids)
 
 	for _, uuid := range uuids {
 		var bundles []bpv7.Bundle
